@@ -15,10 +15,15 @@
      brk_run     = scan of the terminal trace: every write comes after an
                    erase with no render in between (None = violated)
      no_lifecycle = the label is not application start/exit/stop/loop-close
-     app_alive    = the label is not application start/stop/loop-close *)
+     app_alive    = the label is not application start/stop/loop-close
+     desugar p ls = ls with every print()/flush() through sys.stdout (LPW/LPFlush) replaced by
+                    the proxy.write()/flush() it is while sys.stdout is the proxy, and dropped
+                    afterwards (run s ls = run s (desugar (patched s) ls): C20_desugar);
+                    no_lifecycle / app_alive lists contain no LPW/LPFlush, i.e. are desugared *)
 From Coq Require Import ZArith List Bool.
 From PTK Require Import Lib.Sx Model.C20_StdoutProxy
-  Proofs.C20_Queue Proofs.C20_Chain Proofs.C20_Order Proofs.C20_Refuted Proofs.C20_Progress.
+  Proofs.C20_Queue Proofs.C20_Chain Proofs.C20_Order Proofs.C20_Refuted Proofs.C20_Progress
+  Proofs.C20_Patch.
 Import ListNotations.
 Open Scope Z_scope.
 
@@ -29,8 +34,8 @@ Open Scope Z_scope.
    hands on in queue order, nothing lost or duplicated up to the hand-over. *)
 Theorem C20_queue_order : forall c r ls,
   let s := run (init2 c r) ls in
-  concat (handed (px s)) ++ f_text (fth (px s)) ++ queue_text (px s) ++ buf (px s) = stream ls.
-Proof. intros c r ls. exact (ptext_run ls (init2 c r)). Qed.
+  concat (handed (px s)) ++ f_text (fth (px s)) ++ queue_text (px s) ++ buf (px s) = stream (desugar true ls).
+Proof. exact queue_order_all. Qed.
 Print Assumptions C20_queue_order.
 
 (* The stream is made of whole write calls (never split by another thread's
@@ -203,3 +208,29 @@ Theorem C20_progress_run_is_schedule : forall s,
   fnext s = s \/ exists l, enabled s l = true /\ fnext s = step s l.
 Proof. exact fnext_is_step. Qed.
 Print Assumptions C20_progress_run_is_schedule.
+
+(* print()/sys.stdout.flush() through the patched stream are exactly
+   proxy.write()/flush() while sys.stdout is the proxy and nothing afterwards:
+   every theorem above about a desugared list speaks about the original one. *)
+Theorem C20_desugar : forall ls s, run s ls = run s (desugar (patched (en s)) ls).
+Proof. exact desugar_run. Qed.
+Print Assumptions C20_desugar.
+
+(* patch_stdout(): with any number of threads printing through sys.stdout and
+   the context manager restoring the streams BEFORE it closes the proxy
+   (disciplined: no direct proxy.write, LClose only when sys.stdout is no longer
+   the proxy), nothing is ever queued behind the _Done sentinel - for every
+   interleaving.  With C20_flush_thread_progress: everything printed while
+   sys.stdout was the proxy is handed over before the flush thread returns. *)
+Theorem C20_patch_stdout_nothing_behind_done : forall c r ls,
+  disciplined (init2 c r) ls = true -> clean (queue (px (run (init2 c r) ls))) = true.
+Proof. exact patch_clean. Qed.
+Print Assumptions C20_patch_stdout_nothing_behind_done.
+
+(* ... and the order matters: close() before the streams are restored lets a
+   print of another thread land behind the sentinel. *)
+Theorem C20_patch_stdout_order_matters : exists ls,
+  all_enabled (init true) ls = true /\ disciplined (init true) ls = false /\
+  clean (queue (px (run (init true) ls))) = false.
+Proof. exact close_before_restore. Qed.
+Print Assumptions C20_patch_stdout_order_matters.
